@@ -119,16 +119,19 @@ def build_data(case, override=None):
         if override and ds["label"] in override:
             data = override[ds["label"]]
         t, g = np.asarray(ds["t"], dtype=float), np.asarray(ds["g"], dtype=float)
-        if ds.get("layout", "mg") == "mg":
-            da = xr.DataArray(data, coords=[("time", t), ("spectral", g)])
+        # layouts: dimension order mg = (model, global) / gm = (global, model); suffix _f = Fortran-ordered memory
+        lay = ds.get("layout", "mg")
+        mem = np.asfortranarray if lay.endswith("_f") else np.ascontiguousarray
+        if lay.startswith("mg"):
+            da = xr.DataArray(mem(data), coords=[("time", t), ("spectral", g)])
             dataset = da.to_dataset(name="data")
             if weight is not None:
-                dataset["weight"] = xr.DataArray(weight, coords=[("time", t), ("spectral", g)])
+                dataset["weight"] = xr.DataArray(mem(weight), coords=[("time", t), ("spectral", g)])
         else:
-            da = xr.DataArray(data.T.copy(), coords=[("spectral", g), ("time", t)])
+            da = xr.DataArray(mem(data.T.copy()), coords=[("spectral", g), ("time", t)])
             dataset = da.to_dataset(name="data")
             if weight is not None:
-                dataset["weight"] = xr.DataArray(weight.T.copy(), coords=[("spectral", g), ("time", t)])
+                dataset["weight"] = xr.DataArray(mem(weight.T.copy()), coords=[("spectral", g), ("time", t)])
         out[ds["label"]] = dataset
     return out
 
